@@ -9,7 +9,11 @@ INVARIANT Report
 POSTCONDITION Accepted
 CHECK_DEADLOCK FALSE
 """
-NAMES = {"S1": "AS-S1", "S2": "AS-S2", "A1": "AS65001", "A2": "AS65002", "A3": "AS65003", "R1": "RS-R1", "R2": "RS-R2", "F1": "FLTR-F1"}
+NAMES = {"S1": "AS-S1", "S2": "AS-S2", "A1": "AS65001", "A2": "AS65002", "A3": "AS65003", "R1": "RS-R1", "R2": "RS-R2", "F1": "FLTR-F1",
+         "F2": "FLTR-F2", "SB": "AS-BIG"}
+NBIG = 300            # members of the big as-set: more than any round number a client may batch its look-ups by
+NAMES.update({f"B{k}": f"AS{70000 + k}" for k in range(1, NBIG + 1)})
+UNIVERSE = [[4, l, i] for l in range(8, 12) for i in range(2 ** (l - 8))] + [[6, l, i] for l in range(32, 35) for i in range(2 ** (l - 32))]
 
 def prefix(atom):
     f, l, i = atom
@@ -44,7 +48,19 @@ def make_db(b, rng):
     db = {"asSets": {"S1": rng.choice(b["s1"]), "S2": rng.choice(b["s2"])},
           "routes": {a: rng.choice(b["routeChoices"]) for a in ("A1", "A2", "A3")},
           "rtSets": {"R1": rng.choice(b["r1"]), "R2": rng.choice(b["r2"])},
-          "fltSets": {"F1": rng.choice(b["flt"])}}
+          "fltSets": {"F1": rng.choice(b["flt"]), "F2": rng.choice(b["flt2"])}}
+    return db
+
+def add_big(db, rng):
+    """an as-set with NBIG member ASes; every prefix of the universe is originated by exactly one of them - the first,
+    the last, and others spread over the member list - the rest have no routes at all"""
+    members = [f"B{k}" for k in range(1, NBIG + 1)]
+    rng.shuffle(members)
+    db["asSets"]["SB"] = {"sets": [], "items": members}
+    spots = [0, NBIG - 1] + rng.sample(range(1, NBIG - 1), len(UNIVERSE) - 2)
+    atoms = list(UNIVERSE); rng.shuffle(atoms)
+    for pos, atom in zip(spots, atoms):
+        db["routes"].setdefault(members[pos], []).append(atom)
     return db
 
 def irr_of(db, pad=0):
@@ -95,6 +111,9 @@ def exprs(b, rng, n, depth, allow_v6_complement=0):
     while len(out) < n:
         out.append(tree(depth))
     rng.shuffle(out)
+    # names reached along several paths of one expression always take part
+    shared = list(b.get("shared", [])); rng.shuffle(shared)
+    out = shared[: max(2, n // 6)] + out
     out = out[:n]
     for _ in range(allow_v6_complement):
         out.append({"op": "andnot", "l": {"op": "lit", "atoms": [[4, 8, 0]], "rng": [0, 0]},
@@ -115,7 +134,12 @@ def check_c11(tier):
     for g in range(ndb):
         db = make_db(b, rng)
         cases = []
-        for e in exprs(b, rng, nex, 3 if tier == "thorough" else 2, allow_v6_complement=1 if g == 0 else 0):
+        es = exprs(b, rng, nex, 3 if tier == "thorough" else 2, allow_v6_complement=1 if g == 0 else 0)
+        if g % 6 == 1:
+            add_big(db, rng)
+            big = {"op": "asset", "name": "SB", "rng": [0, 0]}
+            es = [big, {"op": "and", "l": big, "r": {"op": "lit", "atoms": [[4, 8, 0]], "rng": [9, 10]}}] + es[:-2]
+        for e in es:
             cases.append({"case": f"c{ncase}", "expr": e, "expr_str": render(e)}); ncase += 1
         # every fourth database answers with many kilobytes (padded objects, repeated members and routes)
         irr = irr_of(db, 9000 if len(groups) % 4 == 1 else 0)
